@@ -11,6 +11,8 @@
 From Coq Require Import ZArith List String Bool Lia.
 From Verif Require Import C19.Model C19.Proofs C19.ProofsUrl C19.Urls C19.GenOk C19.Orig.
 From VerifGen Require Import GenReplication.
+From VerifGen Require GenReplicationCode.
+From Verif Require C19.GenOkCode.
 Import ListNotations.
 Open Scope Z_scope.
 
@@ -233,3 +235,25 @@ Proof. vm_compute. reflexivity. Qed.
 
 Example ex_url_big : state_url 0 "" 1234567890 = Some "/replication/minute/1234/567/890.state.txt"%string.
 Proof. vm_compute. reflexivity. Qed.
+
+(* ==== BEGIN generated-code tie (added by the C11/C12 builder; files translator/cmd/replicationcode,
+   coq/gen/GenReplicationCode.v, C19/GenOkCode.v) ==== *)
+(* searchTimestamp, findBound and findInRange as regenerated from /repo/replication/search.go on
+   every run ARE the hand model above — result and request trace — for every directory [st],
+   every fuel, minimum, time and current state.  [state_fn st] / [cur_fn cur] present a directory
+   as the s.State / s.Current parameter functions of the generated code; [embed] maps the model's
+   result to the (state, error) pair of the Go signature. *)
+Theorem C19_generated_code_is_model :
+  (forall st fuel C min t lowerID upper tr,
+     GenReplicationCode.gen_find_in_range fuel C (GenOkCode.state_fn st) min lowerID (Some upper) t tr =
+     option_map (fun r => ((Some (fst r), GenReplicationCode.GNil), (tr ++ snd r)%list)) (find_in_range st fuel lowerID upper t)) /\
+  (forall st fuel C min t upper tr,
+     GenReplicationCode.gen_find_bound fuel C (GenOkCode.state_fn st) min (Some upper) t tr =
+     option_map (fun r => ((Some (fst (fst r)), Some (snd (fst r)), GenReplicationCode.GNil), (tr ++ snd r)%list))
+                (find_bound st fuel min upper t)) /\
+  (forall st fuel min cur t,
+     GenReplicationCode.gen_search_timestamp fuel (GenOkCode.cur_fn cur) (GenOkCode.state_fn st) min t [] =
+     GenOkCode.embed (search fuel st min cur t)).
+Proof. exact GenOkCode.generated_search_code_is_model. Qed.
+Print Assumptions C19_generated_code_is_model.
+(* ==== END generated-code tie ==== *)
